@@ -20,7 +20,10 @@ def e2e(seed=0, trials=3000):
         q = rnd.uniform(p, hi)
         sl, sr = rnd.uniform(0.1, 3), rnd.uniform(0.1, 3)
         sign = rnd.choice([-1, 1])
-        kind = rnd.choice(["plateau", "linear", "cubic"])
+        kind = rnd.choice(["plateau", "linear", "cubic", "wiggle", "zigzag"])
+        wk, wa = rnd.uniform(0.5, 6.0), rnd.uniform(0.2, 3.0)
+        zz = sorted(rnd.uniform(lo, hi) for _ in range(rnd.randint(2, 6)))
+        zv = [rnd.uniform(-2, 2) for _ in zz]
 
         def f(x, kind=kind):
             if kind == "plateau":
@@ -31,6 +34,15 @@ def e2e(seed=0, trials=3000):
                 return 0.0
             if kind == "linear":
                 return sign * sl * (x - p)
+            if kind == "wiggle":        # non-monotone: several sign changes are possible
+                import math
+                return sign * (0.3 * (x - p) + wa * math.sin(wk * (x - p)))
+            if kind == "zigzag":        # continuous piecewise linear through random points
+                pts = [(lo, -sign * 1.0)] + list(zip(zz, zv)) + [(hi, sign * 1.0)]
+                for (x0, y0), (x1, y1) in zip(pts, pts[1:]):
+                    if x0 <= x <= x1:
+                        return y0 if x1 == x0 else y0 + (y1 - y0) * (x - x0) / (x1 - x0)
+                return pts[-1][1]
             return sign * (x - p) ** 3
         if f(lo) * f(hi) >= 0:
             continue
@@ -51,7 +63,11 @@ def e2e(seed=0, trials=3000):
             return 1
         # within tol of a sign change: f changes sign (or is zero) somewhere in [r - tol, r + tol]
         a, b = max(lo, r - tol), min(hi, r + tol)
-        if not (f(a) * f(b) <= 0 or f(r) == 0):
+        # a sign change (or zero) of f somewhere in [r - tol, r + tol]: dense sampling, because f
+        # need not be monotone there
+        vals = [f(a + (b - a) * k / 4000.0) for k in range(4001)]
+        crossing = any(v == 0 for v in vals) or any(u * v < 0 for u, v in zip(vals, vals[1:]))
+        if not crossing:
             print(f"REPRODUCED: result {r!r} not within {tol} of a sign change (f(r-tol)={f(a)}, f(r+tol)={f(b)})")
             return 1
     print(f"NOT-REPRODUCED end-to-end: {trials} random functions (linear, cubic, zero-plateau) all fine")
